@@ -214,7 +214,7 @@ Lemma build_a_cons : forall tb ld f id rest,
         let* ms := build_a tb ld f (firstn (n_items id) rest2) in
         let* ds := build_a tb ld f (skipn (n_items id) rest2) in
         Ok (DCons (DDelayed id (lookup_b tb fid) ms) ds)
-      | [] => Err EStopIter
+      | [] => Err ELib
       end
     else
       let* ms := build_a tb ld f (firstn (n_items id) rest) in
@@ -363,10 +363,10 @@ Section BuildProofs2.
   Qed.
 
   (* ... but a delayed replication descriptor with nothing after it (no factor)
-     lets StopIteration escape *)
+     is refused (library error) *)
   Theorem build_delayed_at_end : forall id,
     is_replication id = true -> (id mod 1000 =? 0)%N = true ->
-    build tb ld [id] = Err EStopIter.
+    build tb ld [id] = Err ELib.
   Proof.
     intros id Hr Hy. rewrite build_is_build_a.
     change (length [id]) with 1. rewrite build_a_cons.
